@@ -41,6 +41,8 @@ def helper_patches():
     out = {}
     serial = _Serial()
     out[(sf.FortranBase, "__hash__")] = lambda self: serial.hash_of(self)
+    if hasattr(sf, "quote"):
+        out[(sf, "quote")] = pointwise(sf.quote)  # urllib.parse.quote (C-level checks reject proxies)
     for name in ("strip_paren", "paren_split", "get_parens", "quote_split"):
         w = pointwise(getattr(fu, name))
         out[(fu, name)] = w
@@ -121,9 +123,10 @@ def parse_concrete(lines, **settings):
             pass
 
 
-def project(files, correlate=True, **settings):
+def project(files, correlate=True, post=None, post_modules=(), **settings):
     """Run the real Project (all files parsed by the real parser, reader stubbed) and correlate().
-    files: {basename: [logical lines (str or CV)]}"""
+    files: {basename: [logical lines (str or CV)]}.  `post(project)` runs inside the same patched context
+    (same fresh NameSelector, same patches; `post_modules` are patched in addition) and its result is returned."""
     import ford.sourceform as sf
     import ford.utils as fu
     import ford.fortran_project as fp
@@ -141,13 +144,15 @@ def project(files, correlate=True, **settings):
         # re-execution of the symbolic run visits the files in the same order
         real_find = fp.find_all_files
         extra[(fp, "find_all_files")] = lambda st_: sorted(real_find(st_))
-        with patch.patched(sf, fu, fp, extra=extra):
+        with patch.patched(sf, fu, fp, *post_modules, extra=extra):
             buf = io.StringIO()
             with contextlib.redirect_stdout(buf), contextlib.redirect_stderr(buf):
                 st = ProjectSettings(src_dir=[__import__("pathlib").Path(d)], dbg=False, preprocess=False, quiet=True, parallel=0, **settings)
                 p = fp.Project(st)
                 if correlate:
                     p.correlate()
+                if post is not None:
+                    return post(p)
             return p
     finally:
         for name in files:
